@@ -58,6 +58,8 @@ def _all_ops(rng):
 def generate(tier, rng):
     cases = []
     starts = [{"tiers": [], "min": None, "max": None},
+              {"tiers": [], "min": None, "max": 15},          # only one bound given: the other is taken from the first tier
+              {"tiers": [], "min": 3, "max": None},
               {"tiers": [_tier(rng, "a"), _tier(rng, "b")], "min": 0, "max": 20},
               {"tiers": [_tier(rng, "b"), _tier(rng, "c"), _tier(rng, "a")], "min": 0, "max": 20}]
     allops = _all_ops(rng)
